@@ -54,7 +54,7 @@ Definition expected_ident_quoted_body : list N :=
 Definition expected_escape_ascii_body : list N :=
   [108;101;116;99;111;100;101;61;117;56;58;58;102;114;111;109;95;115;116;114;95;114;97;100;105;120;40;99;111;100;101;44;49;54;41;46;111;107;40;41;63;59;105;102;99;111;100;101;62;48;120;55;70;123;78;111;110;101;125;101;108;115;101;123;83;111;109;101;40;99;111;100;101;97;115;99;104;97;114;41;125].
 Definition expected_normalize_body : list N :=
-  [108;101;116;110;111;114;109;97;108;105;122;101;100;61;115;46;97;115;95;114;101;102;40;41;46;114;101;112;108;97;99;101;40;34;92;114;92;110;34;44;34;92;110;34;41;59;100;101;98;117;103;95;97;115;115;101;114;116;33;40;110;111;114;109;97;108;105;122;101;100;46;102;105;110;100;40;39;92;114;39;41;46;105;115;95;110;111;110;101;40;41;44;34;34;41;59;110;111;114;109;97;108;105;122;101;100].
+  [115;46;97;115;95;114;101;102;40;41;46;114;101;112;108;97;99;101;40;34;92;114;92;110;34;44;34;92;110;34;41].
 
 Lemma source_bodies_pinned :
   ident_quoted_body_src = expected_ident_quoted_body
